@@ -34,8 +34,8 @@ struct S { // model: kind of the target (0 none, 1 small, 2 large) and the captu
     PV val;
 };
 #define END() lg_balanced()
-static inline void* f_raw(unsigned r) { void* p = d_sym_block(k_f_sizeof()); lg_register(r, p, k_f_sizeof()); return p; }
-static inline void* s_raw(unsigned r) { void* p = d_sym_block(k_s_sizeof()); lg_register(r, p, k_s_sizeof()); return p; }
+static inline void* f_raw(unsigned r) { void* p = d_sym_block(k_f_sizeof()); lg_register(r, p, k_f_sizeof()); lg_layout(r, k_f_storage_off(), ESZ); vf_led.nslot[r] = 1; return p; }
+static inline void* s_raw(unsigned r) { void* p = d_sym_block(k_s_sizeof()); lg_register(r, p, k_s_sizeof()); lg_layout(r, k_s_storage_off(), ESZ); vf_led.nslot[r] = 1; return p; }
 // emptiness, call result for a symbolic argument, and the census: the capture lives inside the function object
 static inline void f_check(void* p, S const& s, unsigned r)
 {
@@ -139,11 +139,15 @@ Q q_f_move_assign_self() // f = move(f): the parameter is move-constructed from 
     u64 sa = nd_idx(2); PV x = nd_pv();
     split<2>(sa, [&](u64 a) { void* p = f_make(a, x, 0); k_f_assign_move(p, p); f_reuse_fin(p, 0); END(); });
 }
-Q q_f_swap_self() // f.swap(f) leaves the value unchanged
+Q q_f_swap_self() // f.swap(f) leaves the value unchanged (non-empty function)
 {
-    u64 sa = nd_idx(2); PV x = nd_pv();
-    VF_KNOWN(C03_inplace_function_self_swap, sa != 0);
-    split<2>(sa, [&](u64 a) { void* p = f_make(a, x, 0); S s{a, x}; k_f_swap(p, p); f_check(p, s, 0); f_fin(p, 0); END(); });
+    u64 sa = nd_idx(1); PV x = nd_pv();
+    VF_KNOWN(C03_inplace_function_self_swap, true);
+    split<1>(sa, [&](u64 c) { void* p = f_make(c + 1, x, 0); S s{c + 1, x}; k_f_swap(p, p); f_check(p, s, 0); f_fin(p, 0); END(); });
+}
+Q q_f_swap_self_empty()
+{
+    PV x = nd_pv(); void* p = f_make(0, x, 0); S s{0, x}; k_f_swap(p, p); f_check(p, s, 0); f_fin(p, 0); END();
 }
 #define F_BIN(NAME, ...)                                                                                                 \
     Q q_f_##NAME()                                                                                                       \
